@@ -161,7 +161,7 @@ CHECKS = {
         "pre_cmds": ["./build.sh race"],
         "suites": [{"suite": "race", "bin": "./bin/rvharness_race", "race": True, "n_quick": 24, "n_thorough": 400, "shards": 8, "shards_thorough": 16,
                     "eval": "true"},
-                   {"suite": "place", "n_quick": 36, "n_thorough": 800, "shards": 4, "shards_thorough": 16, "eval": "true"}],
+                   {"suite": "place", "n_quick": 40, "n_thorough": 800, "shards": 4, "shards_thorough": 16, "eval": "true"}],
         "monitor_props": ["C16"],
         "lockset_query": True,
         "rule": "race suite (binary built with -race): on one real node, two goroutines submit transactions (including one transaction three times), one issues queries (pool, blocks, outputs, timestamps, registration), one produces blocks, one runs sync rounds against a second real node that produces competing blocks, one refreshes the registry, for 40-80 ms; at quiescence the chain monitors (C01-C04, C07, C10) run and admitted transactions are counted in chain + pool; any race-detector report is a violation. The place suite puts one operation inside another deterministically, by wrapping the injected collaborators: a submission while a production tick is at its AddBlock call (the admitted transaction must be found exactly once in chain + pool), and a production tick while a sync round is between verification and commit (the quiescent state must satisfy C01-C07). The static part regenerates the access table and lock-order edges from the source on every run; distinct by (blocks, submissions, pool size)",
